@@ -11,6 +11,8 @@ model built from that specification only (never PRISM.sys, never PRISM.cost):
 A wrapper on the class's cost records the trace of evaluations as witness.  The closure contracts of C09 are
 active during every solve as well.
 """
+import copy
+
 import numpy as np
 
 import pyPRISM
@@ -278,6 +280,11 @@ def run_case(ctx, case):
     s = G.build(sp)                      # the user-level spec `sp` is complete before the real objects exist
     with np.errstate(all='ignore'):
         p = s.createPRISM()
+    if G.spec_hash(sp) % 3 == 1 or G.style(sp) == 'replace':
+        # the object that is solved is a copy.deepcopy of the one createPRISM returned (a template object copied per state point,
+        # a job handed to a worker): a copy of a PRISM object is a PRISM object for the same user-level specification
+        p = copy.deepcopy(p)
+        ctx.hook('solve.on_a_deepcopy_of_the_object')
     if case.get('deferred'):
         # the object is solved later, after the user has moved on with the System (a sweep that creates first and solves afterwards)
         G.hostile_edits(s, rng)
